@@ -266,6 +266,30 @@ RemoveLink(h, s, t, by) ==
        THEN Mutated("RemoveLink", args, [tree EXCEPT ![h].kids[s] = Drop(@, {t})], 0)
        ELSE NoEffect("RemoveLink", args)
 
+\* vector setters (references(vector), sources(vector), group members(vector)): the container is replaced by the given
+\* sequence, in the given order.  q: sequence of distinct targets.  A target outside the holder's block (or in another
+\* file) makes the whole call fail and nothing changes - except for sources(vector), which is documented by the code
+\* to skip sources that are not in the block (named deviation from the uniform rule, modelled as the code behaves);
+\* its membership test only knows the TOP-LEVEL sources of the block, so nested sources are skipped as well
+\* (observed behaviour, differs from addSource(id) which accepts nested sources; no listed property covers it).
+SetLinks(h, s, q) ==
+  LET args == [p |-> h, slot |-> s, n |-> "", t |-> 0, by |-> "", v |-> 0]
+      inBlock(t) == t \in Live(tree) /\ tree[t].kind = LinkTargetKind(s) /\ BlockOf(tree, t) = BlockOf(tree, h)
+      call == [Call("SetLinks", args, "ok", 0) EXCEPT !.out = q] IN
+  /\ open /\ Budget /\ h \in Live(tree) /\ s \in LinkSlots(tree[h].kind) /\ s \in LinkSlotsOn
+  /\ \A i \in 1..Len(q) : (q[i] = FOREIGN /\ "Foreign" \in Acts) \/ (q[i] \in Live(tree) /\ tree[q[i]].kind = LinkTargetKind(s))
+  /\ \A i, j \in 1..Len(q) : i # j => q[i] # q[j]
+  \* replacing nothing by nothing writes nothing: not a mutating call (it returns also in a read-only session)
+  /\ (~Writable => (Kids(tree, h, s) # <<>> \/ (IF s = "esources" THEN \E i \in 1..Len(q) : inBlock(q[i]) /\ tree[q[i]].par = BlockOf(tree, h) ELSE q # <<>>)))
+  /\ IF ~Writable \/ (s # "esources" /\ \E i \in 1..Len(q) : ~inBlock(q[i]))
+       THEN /\ UNCHANGED <<tree, disk, diskOk, open, mode, dirty, nextEid, retained, limbo, zl, ended, gen, life>>
+            /\ last' = [call EXCEPT !.res = "reject"] /\ hist' = Append(hist, [call EXCEPT !.res = "reject"])
+       ELSE /\ tree' = [tree EXCEPT ![h].kids[s] = SelectSeq(q, LAMBDA t : inBlock(t) /\ (s = "esources" => tree[t].par = BlockOf(tree, h)))]
+            /\ dirty' = TRUE
+            /\ gen' = IF gen < MaxGen /\ Kids(tree, h, s) # <<>> THEN gen + 1 ELSE gen
+            /\ UNCHANGED <<disk, diskOk, open, mode, nextEid, retained, limbo, zl, ended, life>>
+            /\ last' = call /\ hist' = Append(hist, call)
+
 OneOk(h, s, t) ==
   \/ t = NONE /\ s # "positions" /\ s # "data"
   \/ /\ t \in Live(tree) /\ tree[t].kind = OneTargetKind(s)
@@ -482,6 +506,8 @@ Next ==
   \/ "DeleteAbsent" \in Acts /\ \E p \in Live(tree), s \in Slots, c \in 1..MaxCreates, by \in {"id", "handle"} : DeleteAbsent(p, s, c, by)
   \/ "Link" \in Acts /\ \E h \in Live(tree), s \in LinkSlotsOn, t \in Live(tree) \cup {FOREIGN}, by \in {"id", "handle"} : AddLink(h, s, t, by)
   \/ "Link" \in Acts /\ \E h \in Live(tree), s \in LinkSlotsOn, t \in Live(tree), by \in {"id", "handle"} : RemoveLink(h, s, t, by)
+  \/ "Links" \in Acts /\ \E h \in Live(tree), s \in LinkSlotsOn, a \in Live(tree) \cup {FOREIGN, NONE}, b \in Live(tree) \cup {FOREIGN, NONE} :
+        SetLinks(h, s, (IF a = NONE THEN <<>> ELSE <<a>>) \o (IF b = NONE THEN <<>> ELSE <<b>>))
   \/ "One" \in Acts /\ \E h \in Live(tree), s \in OneSlotsOn, t \in Live(tree) \cup {NONE, FOREIGN} : SetOne(h, s, t)
   \/ "Attr" \in Acts /\ \E e \in Live(tree), v \in {1, 2} : SetAttr(e, v)
   \/ "Type" \in Acts /\ \E e \in Live(tree), ty \in {"t2", ""} : SetType(e, ty)
@@ -547,7 +573,7 @@ RejectFrame == [][last'.res = "reject" => (tree' = tree /\ disk' = disk /\ retai
 
 \* C09: nothing is ever written through a read-only session
 ReadOnlyFrame == [][(open /\ mode = "ro") => disk' = disk]_vars
-ReadOnlyRejects == [][(open /\ mode = "ro" /\ last'.a \notin {"Flush", "Close", "Crash", "Open", "DeleteAbsent"}
+ReadOnlyRejects == [][(open /\ mode = "ro" /\ last'.a \notin {"Flush", "Close", "Crash", "Open", "DeleteAbsent", "QueryAll"}
                        /\ ~(last'.a = "RemoveLink" /\ last'.res = "ok")) => last'.res = "reject"]_vars
 
 \* C02: a reopen shows exactly what was there at the close
